@@ -28,6 +28,7 @@ RULE = (
     "block edge falls on a row boundary / inside a row. (d) Producers that write no pixel chunk at all (empty iterable, merge / coarsen / zoomify of empty coolers, unordered creation from empty chunks) with extra value columns. Non-trivial = history containing a collection with nnz>=1 "
     "made by a non-create rule or a multi-chunk create; for (b) an array with a run crossing a block edge. "
     "Distinct by sha1 of the history / case."
+    ' The small-block index part also stores real-valued counts (scaled by 1/4) and compares Cooler.info with the raw attributes and the exact total; bin tables with a lexically ordered categorical chrom column.'
 )
 ASSUMPTIONS = [
     "'sum' is checked only when a 'count' column is stored (with columns=['x'] the attribute is undefined by the schema)",
